@@ -31,7 +31,7 @@ from .modseq import ModSeq
 from . import maildir as MD        # the maildir half: UID list discipline of append/copy/move/reset (shared with C15)
 from . import mdio as IO           # ... and the lock discipline of UidList.with_write that MD's model relies on
 from . import session as SES, selected as SELM     # reporting: what AppendUid / CopyUid are built from
-from harness.e2e_uids import bounded_uids
+from harness.e2e_uids import bounded_uids, bounded_uidvalidity
 
 _ms_mod = ['self._highest', 'self._uids', 'self._updates', 'self._expunges', 'self._mod_seqs_order', 'self.g_pos']
 weak_update = Contract('C04', F, '_ModSequenceMapping.update', params=dict(self=ModSeq, uids=ListS(INT)),
@@ -216,6 +216,60 @@ def mutators_covered():
              f'functions writing _max_uid/_messages without a contract: {sorted(extra)}')]
 
 
+# ---- MailboxSnapshot.new_uid_validity: a UIDVALIDITY is never issued twice (by one process)
+#
+# A mailbox that is created again under a name it had before (DELETE + CREATE, RENAME INBOX, RENAME onto a freed name)
+# starts its UIDs afresh; "(UIDVALIDITY, UID) never denotes two different messages" then rests on the new mailbox getting a
+# UIDVALIDITY the name never had.  time.time() and random.randint are arbitrary here: the postcondition must hold whatever
+# they return.
+SnapCls = RecS('MailboxSnapshotClass', _last_uid_validity=INT)
+
+
+def _nuv_ghost(st, sc):
+    new_uid_validity.globals['MailboxSnapshot'] = sc._names['cls']
+
+
+def _nuv_binop(ex, op, a, b):
+    if isinstance(a, VInt) and isinstance(b, VInt):
+        if isinstance(op, ast.Mod):
+            ex.oblige(f'{ex.c.name}/modulus_positive', b.t > 0)
+            return VInt(a.t % b.t)
+        if isinstance(op, ast.LShift):
+            k = z3.simplify(b.t)
+            if z3.is_int_value(k) and 0 <= k.as_long() < 64:
+                return VInt(a.t * (2 ** k.as_long()))
+    return None
+
+
+def _nuv_time(ex, frame, e, base=None):
+    t = INT.fresh('now')                 # int(time.time()): any non-negative number
+    ex.assume(t.t >= 0)
+    return t
+
+
+def _nuv_randint(ex, frame, e, base=None):
+    args, kw = ex.eval_args(e, frame)
+    r = INT.fresh('randint')
+    ex.assume(z3.And(r.t >= _t(args[0]), r.t <= _t(args[1])))
+    return r
+
+
+new_uid_validity = Contract(
+    'C04', 'pymap/mailbox.py', 'MailboxSnapshot.new_uid_validity', params=dict(cls=SnapCls), returns=INT,
+    ghost_init=_nuv_ghost,
+    requires=[('issued_so_far_are_recorded', lambda s: s.cls._last_uid_validity >= 0)],
+    ensures=[('above_every_value_issued_before', lambda s: s.result > s.old.cls._last_uid_validity),
+             ('remembered_as_the_last_value_issued', lambda s: s.cls._last_uid_validity == s.result),
+             ('a_non_zero_number', lambda s: s.result >= 1)],
+    calls={'time.time': _nuv_time, 'random.randint': _nuv_randint, 'int': lambda ex, frame, e, base=None: ex.eval(e.args[0], frame),
+           'MailboxSnapshot._uid_validity_lock': lambda ex, frame, item, phase: None},
+    modifies=['cls._last_uid_validity'], raises_only=(),
+    note='every value this process issued before is <= _last_uid_validity (induction over the calls: each returns the new '
+         '_last_uid_validity, which exceeds the old one); uniqueness across process restarts (maildir) stays probabilistic')
+new_uid_validity.binop_model = _nuv_binop
+from pyvc.values import _t  # noqa: E402
+
+
 def _bounded():
     from . import dict_harness as H
     return [Bounded('dict MailboxData: UidInv / uids_grow / returned uid on reachable states',
@@ -230,12 +284,17 @@ def _bounded():
                 '250 (quick) / 4000 (thorough) random programs of 2-5 commands [maildir: the first 140 / 1200]; an observer '
                 'connection dumps every mailbox before and after every command; oracle = the statement of C04 '
                 '(harness/e2e_uids.py)',
-                bounded_uids('C04', bk), decisive=False) for bk in ('dict', 'maildir++', 'maildirfs')]
+                bounded_uids('C04', bk), decisive=False) for bk in ('dict', 'maildir++', 'maildirfs')] + [
+        Bounded('a name made anew never gets a UIDVALIDITY it had before (real server)',
+                'INBOX renamed away 3000 times (thorough 20000) and a mailbox deleted and created again 3000 times on the dict '
+                'backend, 250 (2500) times on each maildir layout, one APPEND into every generation: no two generations of a '
+                'name may answer the same [APPENDUID v u] (16 random bits per second make a repeat likely within a few hundred '
+                'generations unless the implementation prevents it)', bounded_uidvalidity('C04'), decisive=False)]
 
 
 PROPERTY = Property(
     'C04', 'UIDs strictly increasing, never reused, truthfully reported',
-    contracts=[append, copy, move, delete, snapshot_weak, snapshot_exact] + MD.CONTRACTS + IO.CONTRACTS + _reporting,
+    contracts=[append, copy, move, delete, snapshot_weak, snapshot_exact, new_uid_validity] + MD.CONTRACTS + IO.CONTRACTS + _reporting,
     registry=REG, bounded=_bounded(),
     structural=[Structural('NoYieldUnderLock', no_yield_under_lock),
                 Structural('mutators_covered', mutators_covered)],
